@@ -1288,7 +1288,13 @@ static void oracle_undo(const Ctx &c, const std::vector<Op> &h)
   if (asg1 != asg2)
   {
     vf::count("undo_reference_propagated_more");
-    return; // the fresh network derived additional literals: bounds are not comparable
+    // The fresh network derived additional literals from the same true literals. With LRA atoms this can be benign (bound
+    // propagation is incomplete and depends on the order of assertion); unit propagation over clauses, difference logic
+    // and object variables is a fixpoint of the assigned literals, so there a literal missing after the history means
+    // that undoing decisions left the network unable to infer what a network without that past infers.
+    if (s.nlra == 0)
+      report(c, h, std::string("C08:") + (lvl == 0 ? "root-" : "") + "consequence-missing-after-undo", "after the history the network reports " + asg1 + " but a fresh network in which the same true literals are asserted derives " + asg2);
+    return; // bounds are not comparable
   }
   vf::count("undo_compared");
   if (obs1 != obs2)
@@ -1784,6 +1790,23 @@ static void families(const std::string &prop, const std::string &tier)
   {
     g_oracles = O_UNDO | O_ENTAIL;
     g_alphabet = "apn";
+    // pure SAT: every pair (thorough: triple) of clauses of the 20-clause pool over 3 variables plus two fixed clauses over
+    // two more variables that watch the same literals, so that clause conflicts happen with other watchers queued behind
+    {
+      auto pool = clause_pool(3, true);
+      subsets(pool.size(), th ? 3 : 2, [&](const std::vector<size_t> &idx)
+              {
+                if (idx.size() < 2)
+                  return;
+                Spec s;
+                s.nb = 5;
+                for (auto i : idx)
+                  s.cl.push_back(pool[i]);
+                s.cl.push_back({-1, 4});
+                s.cl.push_back({-2, 5});
+                s.depth = 4;
+                g_specs.push_back(s); });
+    }
     g_depth = th ? 7 : 5;
     g_split = 2;
     {
